@@ -22,7 +22,9 @@ AllScopes == <<"data", "builtin", "locals", "globals", "extra">>
 Chain(role) == IF role = "arg" THEN AllScopes ELSE SubSeq(AllScopes, 2, 5)
 Roles == {"arg", "callee"}
 Forms(role) == IF role = "arg" THEN {"plain", "backquoted"} ELSE {"plain", "dotted"}
-Decoys == {"locals_other_frame", "globals_other_frame"}
+\* definitions that must never be seen: other frames' locals / globals, and the interpreter's own
+\* built-in namespace (the probed name is spelled like a Python built-in such as max or abs)
+Decoys == {"locals_other_frame", "globals_other_frame", "python_builtins"}
 
 VARIABLES cfg,     \* [defined, decoys, role, form, env]
           ptr,     \* index of the scope probed next
